@@ -835,6 +835,29 @@ class FD:
             kwargs = {k.arg: self.eval(k.value, env) for k in e.keywords}
             kwargs.update(star_kwargs)
             return env[e.func.id](*args, **kwargs)
+        if isinstance(e.func, ast.Attribute) and isinstance(e.func.value, ast.Name) and e.func.value.id not in env \
+                and self.sym is not None and self._mods and self._mods[-1] is not None:
+            # ClassName.method(obj, ...): the plain function of a pedal class, called unbound
+            from .symbols import ClassInfo as _CI
+            try:
+                ci = self.sym.resolve_name(self._mods[-1], e.func.value.id)
+            except Exception:
+                ci = None
+            if isinstance(ci, _CI):
+                for k in self.sym.mro(ci):
+                    fn = k.methods.get(e.func.attr) if hasattr(k, 'methods') else None
+                    if fn is not None:
+                        args = [self.eval(a, env) for a in e.args]
+                        kwargs = {kk.arg: self.eval(kk.value, env) for kk in e.keywords}
+                        kwargs.update(star_kwargs)
+                        decos = [dotted(d) for d in fn.decorator_list]
+                        if 'staticmethod' in decos:
+                            return self.call_function(fn, args, kwargs)
+                        if 'classmethod' in decos:
+                            break
+                        if not args:
+                            break
+                        return self.call_function(fn, args[1:], kwargs, bound_self=args[0])
         if isinstance(e.func, ast.Attribute):
             recv = self.eval(e.func.value, env)
             args = [self.eval(a, env) for a in e.args]
